@@ -57,6 +57,8 @@ class OneElecKernel:
                 if la + lb <= top:
                     out.append(dict(la=la, lb=lb, K=[1, 1], M=[1, 1], N=1))
         out += [dict(la=1, lb=0, K=[2, 1], M=[2, 1], N=2), dict(la=1, lb=1, K=[1, 2], M=[1, 2], N=1), dict(la=0, lb=0, K=[2, 2], M=[2, 2], N=1)]
+        if tier == "quick":
+            out += [dict(la=5, lb=0, K=[1, 1], M=[1, 1], N=1), dict(la=5, lb=1, K=[1, 1], M=[1, 1], N=1)]  # the top of the property's range (h shells)
         if tier == "thorough":
             out += [dict(la=2, lb=1, K=[2, 2], M=[1, 2], N=1), dict(la=2, lb=0, K=[1, 1], M=[1, 1], N=2)]
         return out
@@ -199,6 +201,7 @@ class PointChargeInline:
         out = [dict(la=la, lb=lb) for la in range(lm + 1) for lb in range(lm + 1) if la + lb <= (3 if tier == "quick" else 5)]
         # several primitives per shell (what a block-level screen or pruning step would look at)
         out += [dict(la=0, lb=0, K=[2, 2]), dict(la=1, lb=0, K=[1, 2])]
+        out += [dict(la=5, lb=0), dict(la=0, lb=5)]  # the top of the property's range, on either side (exercises the swap)
         if tier == "thorough":
             out += [dict(la=0, lb=1, K=[3, 1]), dict(la=1, lb=1, K=[2, 2])]
         return out
